@@ -12,13 +12,19 @@ MANIFEST = dict(
     text="Lean 4 theorems over a code-shaped executable model of IPv4Address / IPv6Address / HWAddress<n>, "
          "Internals::increment/decrement, AddressRange and its iterator (order = numeric order, equality, masks, "
          "prefix ranges, contains, iteration visits exactly [first..last] / the hosts for every range incl. those ending "
-         "at all-ones, hardware-address text codec = reference grammar), tied to the code by differential correspondence "
-         "under ASan/UBSan and by a numeric spec oracle evaluated on the implementation's own output.",
+         "at all-ones, hardware-address text codec = reference grammar, IPv4 and IPv6 text: the inet_pton reference models "
+         "= the strict dotted-quad / RFC 4291 grammars for every string, inet_ntop6 reference model = RFC 5952 canonical "
+         "text and parse(print(a)) = a for all 2^128 addresses), tied to the code by differential correspondence "
+         "under ASan/UBSan and by a numeric / RFC-grammar spec oracle evaluated on the implementation's own output.",
     note="Trusted: Lean kernel + standard axioms; hand-written model tied by correspondence (harness/c16_address.cpp); "
-         "IPv6 text <-> bytes is libc inet_pton/inet_ntop on both sides (correspondence-only, reference = Python's "
-         "socket.inet_pton/ntop = the same libc); inet_pton(AF_INET) is a Lean reference parser validated against libc; "
-         "std::hash<string>/std::hash<uint32_t> are libstdc++.",
-    technique="Lean 4 proof (induction over address bytes / range length) + model/impl correspondence + spec oracle",
+         "libc itself: IPv6Address(text) / to_string() are inet_pton / inet_ntop(AF_INET6) and IPv4Address(text) is "
+         "inet_pton(AF_INET) — the theorems are about Lean reference models of these glibc routines (V6.pton6, V6.ntop6, "
+         "V4.pton4Loop), which are compared with the linked libc through libtins on every run (structured generator: all 256 "
+         "zero patterns of the eight groups, every '::' placement, embedded-IPv4 forms and near misses, case / padding "
+         "variants, every malformed shape, random edits); the oracle answers from Spec.parse6 / Spec.fmt6 (RFC 4291 / 5952), "
+         "not from the algorithm model; std::hash<string>/std::hash<uint32_t> are libstdc++.",
+    technique="Lean 4 proof (induction over address bytes / range length / text; zero-pattern abstraction for the '::' run) "
+              "+ model/impl correspondence + spec oracle",
     design="DESIGN.md §6 C16")
 MANIFEST["note"] += (" Constants and limits of the C++ source that the model restates (translator/gen_limits.py -> Gen/Limits.lean: "
                      "compiled probe + preprocessed function bodies at named anchors) are tied to the model's numerals by the "
@@ -522,6 +528,8 @@ def run(chk):
                        "for IPv4, IPv6 and HWAddress<6>; distinct_nontrivial counts distinct (operation, implementation result) pairs")
     chk.assumptions += [
         "texts handed to the constructors contain no NUL byte (IPv4/IPv6 constructors take the C string)",
+        "glibc >= 2.26 inet_pton6 (a group of five hex digits is refused even when its value fits 16 bits); the reference model "
+        "follows that algorithm and the correspondence would show an older / different libc as a model difference",
         "prefix lengths range over -300..8n+2 (outside 0..8n the only requirement is std::logic_error)",
         f"iterations are cut after {CAP} steps: longer ranges are checked on their first {CAP} addresses and on not having terminated",
         "a HWAddress hash collision between different addresses would show as a model difference (std::hash<std::string>)",
@@ -531,13 +539,18 @@ def run(chk):
     chk.trusted += ["correspondence harness harness/c16_address.cpp (compiled with -fno-access-control to print first_/last_) "
                     "+ generators in checks/C16.py",
                     "g++ 12 / ASan+UBSan build of the repo's working tree",
-                    "libc inet_pton/inet_ntop (IPv6 text is libc on both sides: correspondence-only, reference via Python socket)",
+                    "libc inet_pton / inet_ntop (AF_INET and AF_INET6) themselves: libtins only calls them; the Lean reference models "
+                    "V4.pton4Loop / V6.pton6 / V6.ntop6 (proved equal to Spec.parse4 / Spec.parse6 / Spec.fmt6, round trip proved) are "
+                    "compared with the linked libc through IPv6Address(string), IPv6Address(const char*), to_string(), operator<< on every run",
                     "libstdc++ std::hash<uint32_t> (identity) and std::hash<std::string>"]
-    chk.extra["modelled_not_proved"] = ["std::hash<IPv6Address> value (modelled bit-exactly, only congruence is a theorem)",
-                                        "IPv6 text <-> bytes (libc on both sides; the reference answer of libc is echoed by the model)",
-                                        "inet_pton(AF_INET) itself is libc: the Lean reference model V4.pton4Loop (proved equal to "
-                                        "the strict dotted-quad grammar Spec.parse4) is compared with libc on every run",
-                                        "big-endian #if branch of endianness.h"]
+    chk.extra["modelled_not_proved"] = [
+        "std::hash<IPv6Address> VALUE (modelled bit-exactly and compared on every cmp op): the property needs only that equal "
+        "addresses hash equally — hash_congr, proved; which number comes out is the boost-style combine over libstdc++'s size_t "
+        "and no statement of C16 depends on it",
+        "inet_pton / inet_ntop themselves are libc, not libtins: every IPv4 / IPv6 text theorem (ipv4_accept_iff, pton6_is_spec, "
+        "ntop6_canonical, ntop6_roundtrip, ipv6_text_roundtrip) is about the Lean reference models; that the linked libc "
+        "behaves like them is validated on every run, not proved",
+        "big-endian #if branch of endianness.h"]
     corr.finalize_cov(chk)
 
 
